@@ -823,7 +823,9 @@ func replayC20Bin(path string) (bool, string, error) {
 
 func init() {
 	runners["C20BIN"] = runC20Bin
-	replayers["C20"] = replayC20Bin
+	// ---- C20 begin: replays of all four loaders (c20all.go replayC20) fall back to replayC20Bin for binary-only scenarios
+	replayers["C20"] = replayC20
+	// ---- C20 end
 	// the sandboxed child: harness C20CHILD -out <input file> -seed <first input index>
 	runners["C20CHILD"] = func(seed uint64, tier string, out string) error {
 		os.Exit(c20Child(out, int(seed)))
